@@ -79,6 +79,35 @@ def k1(ctx, kr):
         if method == 'decode_with_bom_removal': return Agg('()', [Str(text), bad])
         if method == 'decode_without_bom_handling': return Agg('()', [Str(text), bad])
         raise Unsupported('encoding_rs method ' + method)
+    # streaming API of encoding_rs by contract: Encoding::new_decoder() sniffs the BOM like Encoding::decode(); Decoder::decode_to_string(src, dst, last) appends
+    # to dst WITHOUT growing it (at most dst.capacity() - dst.len() bytes) and answers OutputFull when the text does not fit; the UTF-8 form of a Windows-1252
+    # text with a non-ASCII character is longer than the file, a UTF-16 file's text may be longer or shorter than the file, a UTF-8 file's text is not longer.
+    def st_new_decoder(M, fr, callee, a):
+        dec = M.deref(a[0]); kind = re.search(r'Encoding::(\w+)$', callee).group(1)
+        return Agg('Decoder', [dec, {'new_decoder': 'decode', 'new_decoder_with_bom_removal': 'decode_with_bom_removal', 'new_decoder_without_bom_handling': 'decode_without_bom_handling'}[kind]])
+    def st_with_capacity(M, fr, callee, a):
+        sx = Str([]); c = simp(a[0])
+        lens = st.get('len', {})
+        sx.cap = 'file-bytes' if any(is_sym(c) and c.eq(v) for v in lens.values()) else ('enough' if isinstance(c, Opaque) and c.tag == 'max_utf8_buffer_length' else 'other')
+        return sx
+    def st_max_len(M, fr, callee, a): return some(Opaque('max_utf8_buffer_length')) if 'checked' in callee or callee.endswith('max_utf8_buffer_length') else Opaque('max_utf8_buffer_length')
+    def st_decode_to_string(M, fr, callee, a):
+        d = M.deref(a[0]); dec = d.f[0]; method = d.f[1]
+        fb = file_bytes(M, a[1]); part = fb is not None and fb.f[0] == 'part'
+        dst = a[2]
+        while isinstance(dst, Ref) and not isinstance(M.deref(dst), (Str, SymStr)): dst = M.deref(dst)
+        dstv = M.deref(dst)
+        text, bad = _decode_contract(M, dec.name.split('::')[-1], st['enc'], method, part)
+        st['used'].append((dec.name.split('::')[-1], 'Decoder::decode_to_string'))
+        cap = getattr(dstv, 'cap', 'other')
+        enc = st['enc']
+        if cap == 'enough': fits = True
+        elif cap == 'file-bytes': fits = True if enc in ('utf8', 'utf8-bom') else (False if enc.startswith('windows1252') else M.branch(M.fresh_bool('utf16_text_fits')))
+        else: fits = M.branch(M.fresh_bool('text_fits_capacity'))
+        if text == 'T' and not fits: text = 'T cut short'
+        dstv.b = list(dstv.b) + list(text.encode())
+        return Agg('()', [EnumV('CoderResult', 0 if fits else 1, []), Opaque('read'), bad])
+    def st_decoder_encoding(M, fr, callee, a): return M.deref(a[0]).f[0]
     def st_from_utf8(M, fr, callee, a):
         # String::from_utf8 / str::from_utf8 over the abstract file: Ok(text as stored, a BOM stays a character) iff the stored bytes are UTF-8
         st['used'].append(('from_utf8', 'no BOM handling'))
@@ -90,7 +119,9 @@ def k1(ctx, kr):
         # encoding_rs::mem::decode_latin1: every byte is the code point of the same value (ISO-8859-1), no errors, no BOM handling
         text, _ = _decode_contract(M, 'LATIN1', st['enc'], 'decode_without_bom_handling'); st['used'].append(('LATIN1', 'mem::decode_latin1'))
         return Str(text)
-    M = Machine(P, stubs={r'^std::fs::read(::<.*>)?$': st_read, r'^std::vec::Vec::<u8>::(len|is_empty)$|^std::vec::Vec::<.*>::(len|is_empty)$|^core::slice::<impl \[.*\]>::(len|is_empty)$': st_len,
+    M = Machine(P, stubs={r'^encoding_rs::Encoding::new_decoder(_with_bom_removal|_without_bom_handling)?$': st_new_decoder, r'^encoding_rs::Decoder::decode_to_string(_without_replacement)?$': st_decode_to_string,
+                          r'^encoding_rs::Decoder::encoding$': st_decoder_encoding, r'^encoding_rs::Decoder::max_utf8_buffer_length(_without_replacement)?$': st_max_len,
+                          r'^std::string::String::with_capacity$': st_with_capacity, r'^std::fs::read(::<.*>)?$': st_read, r'^std::vec::Vec::<u8>::(len|is_empty)$|^std::vec::Vec::<.*>::(len|is_empty)$|^core::slice::<impl \[.*\]>::(len|is_empty)$': st_len,
                           r'^<std::vec::Vec<u8> as std::ops::Index<std::ops::Range\w*<usize>>>::index$|^<\[u8\] as std::ops::Index<std::ops::Range\w*<usize>>>::index$|^core::slice::<impl \[.*\]>::(get|first_chunk|split_first_chunk)$|^core::slice::index::<impl std::ops::Index<.*> for \[.*\]>::index$': st_slice,
                           r'^<std::vec::Vec<u8> as std::ops::Deref>::deref$|^std::vec::Vec::<.*>::as_slice$|^<std::vec::Vec<.*> as std::convert::AsRef<\[.*\]>>::as_ref$': st_same, r'^std::string::String::from_utf8$|^std::str::from_utf8$|^core::str::from_utf8$': st_from_utf8,
                           r'^std::string::FromUtf8Error::into_bytes$': st_into_bytes, r'^encoding_rs::mem::decode_latin1$': st_latin1, r"^std::borrow::Cow::<'_, str>::into_owned$|^std::borrow::Cow::into_owned$|^<std::borrow::Cow<'_, str> as std::string::ToString>::to_string$": lambda M_, fr, c, a: (M_.deref(a[0]) if isinstance(a[0], Ref) else a[0]), r'^std::string::String::from_utf8_lossy$': lambda M_, fr, c, a: (_ for _ in ()).throw(Unsupported('from_utf8_lossy over an abstract file')), r'^encoding_rs::Encoding::decode': st_decode, r'^encoding_rs::Encoding::name$': lambda M_, fr, c, a: Ref(Cell(Str('enc'))),
